@@ -96,7 +96,8 @@ struct Case {
     // monitor books
     recs: [BTreeMap<u64, Rec>; 3],
     claimed_la: [Option<u64>; 3],
-    initial_discarded: bool,
+    discarded: [bool; 2],
+    hs_ack: bool,
     fired: std::collections::HashSet<String>,
     aa_limit: bool,
     confirmed: bool,
@@ -192,6 +193,8 @@ async fn apply(c: &mut Case, sink: &mut Sink, op: &Op) -> bool {
 
     // ---------------- monitors (own books + implementation snapshot only) ----------------
     let mut fails: Vec<(String, String)> = vec![];
+    let disc_before = c.discarded;
+    let validated_before = c.server || c.hs_ack || c.confirmed;
     let (cw0, cw1) = (pre.num("cwnd"), post.num("cwnd"));
     let mds = post.num("mds");
     let mut newly_acked: Vec<Rec> = vec![];
@@ -201,11 +204,11 @@ async fn apply(c: &mut Case, sink: &mut Sink, op: &Op) -> bool {
             c.recs[*e].insert(*pn, Rec { ts: now, elic: *elic, infl: *infl, size: *size, acked: false, lost: false });
             if *e == 1 && !c.server {
                 // clause 3c: the backoff survives sending (Initial keys can only be discarded once)
-                if c.initial_discarded && post.num("pto") < pre.num("pto") {
+                if c.discarded[0] && post.num("pto") < pre.num("pto") {
                     fails.push(("pto_reset_on_send".to_string(), format!("client sent Handshake pn {}: pto_count {} -> {} although the Initial space was discarded before", pn, pre.num("pto"), post.num("pto"))));
                 }
                 c.recs[0].clear();
-                c.initial_discarded = true;
+                c.discarded[0] = true;
             }
         }
         Op::Ack { e, ranges, ce, .. } => {
@@ -218,9 +221,10 @@ async fn apply(c: &mut Case, sink: &mut Sink, op: &Op) -> bool {
                 }
             }
             if ce.is_some() { ecn_trigger = newly_acked.iter().map(|r| r.ts).max(); }
-            if *e == 1 && c.server { c.recs[0].clear(); }
+            if *e == 1 && c.server { c.recs[0].clear(); c.discarded[0] = true; }
         }
-        Op::Discard(e) => { c.recs[*e].clear(); if *e == 0 { c.initial_discarded = true; } }
+        Op::Discard(e) => { c.recs[*e].clear(); if *e < 2 { c.discarded[*e] = true; } }
+        Op::HsAck => c.hs_ack = true,
         Op::Grant => c.aa_limit = false,
         Op::Limit => c.aa_limit = true,
         Op::Confirmed => c.confirmed = true,
@@ -236,7 +240,7 @@ async fn apply(c: &mut Case, sink: &mut Sink, op: &Op) -> bool {
             if let Some(r) = c.recs[*e].get_mut(pn) {
                 lost_ts.push(r.ts);
                 if r.acked { fails.push(("lost_after_ack".to_string(), format!("epoch {} pn {} reported lost after an ACK frame covered it", e, pn))); }
-                let later = largest_acked.is_some_and(|la| la > *pn);
+                let later = largest_acked.is_some_and(|la| la > *pn) || (!c.strict && c.claimed_la[*e].is_some_and(|la| la >= *pn));
                 if !later {
                     fails.push(("lost_without_later_ack".to_string(), format!("epoch {} pn {} reported lost at t={} (sent {}), no later packet acknowledged", e, pn, now, r.ts)));
                 } else {
@@ -252,7 +256,17 @@ async fn apply(c: &mut Case, sink: &mut Sink, op: &Op) -> bool {
     }
     // clause 3: every ack-eliciting in-flight packet is acked, lost or a timer is armed
     let timer = post.opt("timer");
+    let arming_op = match op {
+        Op::Sent { infl, .. } => *infl,
+        // a packet reported lost before may already have left the implementation's list: only the
+        // acknowledgement of a still outstanding packet is sure to reach set_loss_detection_timer
+        Op::Ack { .. } => newly_acked.iter().any(|r| !r.lost),
+        Op::Tick(_) => post.num("pto") != pre.num("pto") || !lost.is_empty(),
+        Op::Rcvd | Op::Discard(_) => true,
+        _ => false,
+    };
     for e in 0..3 {
+        if !arming_op { break; }
         if e == 2 && !c.confirmed { continue; }
         let open = c.recs[e].values().any(|r| r.elic && r.infl && !r.acked && !r.lost);
         if open && timer.is_none() && !c.aa_limit {
@@ -269,6 +283,35 @@ async fn apply(c: &mut Case, sink: &mut Sink, op: &Op) -> bool {
                     fails.push(("pto_not_doubled".to_string(), format!("epoch {}: PTO interval {} ns after {} ns (pto_count {} -> {})", i, p1, pto_pre[i], pre.num("pto"), post.num("pto"))));
                     break;
                 }
+            }
+        }
+    }
+    // clause 3d: the backoff is forgotten only by an acknowledgement of new data from a peer that completed address
+    // validation, or by discarding a packet number space for the first time (sends are covered by clause 3c)
+    if post.num("pto") < pre.num("pto") {
+        let legit = match op {
+            Op::Ack { e, .. } => (!newly_acked.is_empty() && validated_before) || (*e == 1 && c.server && !disc_before[0]),
+            Op::Discard(e) => *e < 2 && !disc_before[*e],
+            Op::Sent { e, .. } => *e == 1 && !c.server,
+            _ => false,
+        };
+        if !legit {
+            fails.push(("pto_backoff_forgotten".to_string(), format!("pto_count {} -> {} on `{}` (validated peer: {}, newly acknowledged: {}, first discard: {})", pre.num("pto"), post.num("pto"), text, validated_before, newly_acked.len(), !disc_before[0])));
+        }
+    }
+    // clause 3e: after a probe timeout the timer is armed one (doubled) PTO period after the reference instant
+    if let Op::Tick(_) = op {
+        let lt_none = (0..3).all(|i| post.get(&format!("sp{}", i)).is_some_and(|v| v.split(';').nth(2) == Some("-")));
+        if post.num("pto") == pre.num("pto") + 1 && lt_none {
+            if let Some(t) = timer {
+                let mut ok = false;
+                for (i, e) in EPOCHS.iter().enumerate() {
+                    let g = c.cc.get_pto(*e).as_nanos() as u64;
+                    if i < 2 && t == now + g { ok = true; }
+                    let tl = post.get(&format!("sp{}", i)).and_then(|v| v.split(';').nth(1).and_then(|x| x.parse::<u64>().ok()));
+                    if tl.is_some_and(|tl| t == tl + g) { ok = true; }
+                }
+                if !ok { fails.push(("pto_timer_not_backed_off".to_string(), format!("after the probe timeout (pto_count {}) the timer {} is not one PTO period after now={} or after a last ack-eliciting send", post.num("pto"), t, now))); }
             }
         }
     }
@@ -330,20 +373,20 @@ fn new_case(server: bool, mtu: u16, mad_ns: u64, strict: bool) -> Result<Case, S
     ];
     let ps2 = ps.clone();
     let cc = catch(move || ArcCC::new(Algorithm::NewReno, Duration::from_nanos(mad_ns), trackers, ps2, ArcSendWaker::new()))?;
-    Ok(Case { cc, hs, ps, origin: Instant::now(), log, server, recs: Default::default(), claimed_la: [None; 3], initial_discarded: false, fired: Default::default(), aa_limit: true, confirmed: false,
+    Ok(Case { cc, hs, ps, origin: Instant::now(), log, server, recs: Default::default(), claimed_la: [None; 3], discarded: [false; 2], hs_ack: false, fired: Default::default(), aa_limit: true, confirmed: false,
               last_shrink: None, strict, n_lost: 0, n_acked: 0, n_pto: 0 })
 }
 
 struct Gen { next_pn: [u64; 3], sent: [Vec<u64>; 3], ce: u64, mtu: u16, discarded: [bool; 3] }
 
-fn gen_ack(rng: &mut Rng, g: &Gen, e: usize) -> Option<Vec<(u64, u64)>> {
+fn gen_ack(rng: &mut Rng, g: &Gen, e: usize, malformed: bool) -> Option<Vec<(u64, u64)>> {
     let s = &g.sent[e];
     if s.is_empty() { return None; }
     // pick a largest among the recently sent pns, then walk downwards choosing runs
     let hi_idx = s.len() - 1 - (rng.below(s.len().min(6) as u64) as usize);
     let mut ranges: Vec<(u64, u64)> = vec![];
     let mut cur = s[hi_idx];
-    if rng.chance(1, 40) { cur += 1 + rng.below(3); } // spurious: beyond anything sent
+    if malformed && rng.chance(1, 8) { cur += 1 + rng.below(3); } // spurious: beyond anything sent
     let floor = s[0].saturating_sub(2);
     for _ in 0..(1 + rng.below(4)) {
         let len = match rng.below(4) { 0 => 0, 1 => rng.below(3), _ => rng.below(8) };
@@ -393,7 +436,7 @@ fn gen_history(rng: &mut Rng, server: bool, mtu: u16, malformed: bool) -> Vec<Op
                 if rng.chance(1, 5) { ops.push(Op::Tick(rng.below(2_000_000))); }
             }
         } else if w < 40 + ack_w {
-            if let Some(ranges) = gen_ack(rng, &g, e) {
+            if let Some(ranges) = gen_ack(rng, &g, e, malformed) {
                 let ce = if rng.chance(1, 8) { if rng.chance(2, 3) { g.ce += 1; } Some(g.ce) } else { None };
                 ops.push(Op::Ack { e, ranges, ce, delay: rng.below(30_000) });
                 if e == 1 && server { g.sent[0].clear(); }
@@ -475,6 +518,10 @@ fn fixed() -> Vec<(bool, u16, u64, bool, Vec<Op>)> {
     v.push((false, 1200, 25 * ms, false, h));
     // 8: ack-eliciting but not in flight: `time_of_last_ack_eliciting_packet.unwrap()`
     v.push((true, 1200, 25 * ms, false, vec![Op::Grant, Op::Sent { e: 0, pn: 0, elic: true, infl: false, size: 100 }, Op::Sent { e: 0, pn: 1, elic: false, infl: true, size: 100 }, Op::Tick(200 * ms)]));
+    // 9: a client that is not yet sure of address validation keeps its backoff across an Initial ACK (seeded c13-2)
+    v.push((false, 1200, 25 * ms, true, vec![Op::Grant, Op::Sent { e: 0, pn: 0, elic: true, infl: true, size: 1200 }, Op::Tick(40 * ms), Op::Tick(112 * ms),
+        Op::Sent { e: 0, pn: 1, elic: true, infl: true, size: 1200 }, Op::Tick(20 * ms), Op::Ack { e: 0, ranges: vec![(1, 1)], ce: None, delay: 0 },
+        Op::Tick(400 * ms), Op::HsAck, Op::Sent { e: 0, pn: 2, elic: true, infl: true, size: 1200 }, Op::Tick(20 * ms), Op::Ack { e: 0, ranges: vec![(2, 2)], ce: None, delay: 0 }]));
     v
 }
 
